@@ -25,9 +25,9 @@ RULE = (
     "(line-up, cut labelling)."
 )
 ASSUMPTIONS = ["cheap sampler classes only (order, not numerics, is at stake)", "the RL scheduler cannot be checkpointed (known finding under C04): RL runs use no restore"]
-REQUIRED_COUNTERS = {"rr_batches": 400, "rr_runs": 80, "rr_restores": 40, "rl_batches": 60, "rl_sessions": 25, "ctor_combinations": 8}
+REQUIRED_COUNTERS = {"rl_runs_with_a_zero_loss": 5, "rr_batches": 400, "rr_runs": 80, "rr_restores": 40, "rl_batches": 60, "rl_sessions": 25, "ctor_combinations": 8}
 SHARDS = {"quick": 16, "thorough": 16}
-SHARD_WATCHDOG = {"quick": 900, "thorough": 5400}
+SHARD_WATCHDOG = {"quick": 1500, "thorough": 10800}
 
 
 def gen_cases(tier, seed):
@@ -172,25 +172,42 @@ def run_rl(desc, ctx, out):
 
         agent = Scripted() if scripted else LoggedEG(n_supplied, alpha=0.3, eps=0.4, initial_values=0.0)
         sched = RLScheduler(samplers, agent=agent, env=MABCalibrationEnv(n_supplied))
-        cal = Calibrator(loss_function=LG.build_loss(cfg["loss"]), real_data=CG.real_data(cfg), model=CG.model_for(cfg),
-                         parameters_bounds=np.array(cfg["space"]["bounds"]), parameters_precision=np.array(cfg["space"]["precision"]),
-                         ensemble_size=1, scheduler=sched, verbose=False, random_state=cfg["seed"], n_jobs=1)
+        exact_losses = desc["i"] % 3 == 0
+        if exact_losses:
+            # scripted losses (model output == loss exactly), including a perfect fit: loss 0.0 at some batch
+            from black_it.loss_functions.minkowski import MinkowskiLoss
+            from vlib import models as MM
+
+            vals = [float(x) for x in np.round(rng.uniform(0.5, 3.0, size=40), 3)]
+            vals[int(rng.integers(0, 4))] = 0.0
+            wit["scripted_losses_head"] = vals[:8]
+            c["rl_runs_with_a_zero_loss"] = c.get("rl_runs_with_a_zero_loss", 0) + 1
+            cal = Calibrator(loss_function=MinkowskiLoss(p=1), real_data=np.zeros((1, 1)), model=MM.Scripted(vals),
+                             parameters_bounds=np.array(cfg["space"]["bounds"]), parameters_precision=np.array(cfg["space"]["precision"]),
+                             ensemble_size=1, scheduler=sched, verbose=False, random_state=cfg["seed"], n_jobs=1)
+        else:
+            cal = Calibrator(loss_function=LG.build_loss(cfg["loss"]), real_data=CG.real_data(cfg), model=CG.model_for(cfg),
+                             parameters_bounds=np.array(cfg["space"]["bounds"]), parameters_precision=np.array(cfg["space"]["precision"]),
+                             ensemble_size=1, scheduler=sched, verbose=False, random_state=cfg["seed"], n_jobs=1)
     supplied_ids = {id(s) for s in samplers}
     halton_supplied = [s for s in samplers if isinstance(s, HaltonSampler)]
     first_ever = True
     for si, m in enumerate(sessions):
         p0 = len(policy_log)
-        with CM.RunMonitor(cal, snapshots=False) as mon:
+        from vlib.yieldinj import YieldInjector
+
+        with CM.RunMonitor(cal, snapshots=False) as mon, YieldInjector(int(rng.integers(2**31))) as inj:
             try:
-                with quiet(), G.time_limit(180):
+                with quiet(), G.time_limit(G.LIMIT):
                     cal.calibrate(m)
             except G.Timeout:
-                out["inconclusive"] = "RL calibrate() did not return within 60 s"
+                out["inconclusive"] = "RL calibrate() did not return within the time limit"
                 return
             except Exception as e:  # noqa: BLE001
                 out["violations"].append({"msg": f"RL run raised {type(e).__name__}: {str(e)[:160]}", "witness": wit})
                 return
         c["rl_sessions"] = c.get("rl_sessions", 0) + 1
+        c["rl_line_events_with_yield_injection"] = c.get("rl_line_events_with_yield_injection", 0) + inj.events
         pol = [a for _, a in policy_log[p0:]]
         k = 0
         for (bidx, smp, pos, cname, ret) in mon.batches():
